@@ -99,3 +99,63 @@ def check(items):
 
 def boundary_items():
     return [{"text": t, "mode": m} for t in BOUNDARY_PROGRAMS for m in ["", "debug", "assemble", "preprocess"]]
+
+
+# ---------------------------------------------------------------------------------------------------------
+# relative branches to labels around the limits of the 8-bit displacement: an accepted branch must reach its label
+# (nothing re-interpreted between the source and the bits), in every mode that runs, and encode that displacement
+
+def reach_programs():
+    out = []
+    for d in (-130, -129, -128, -127, -2, 1, 2, 126, 127, 128, 129, 130):
+        for br in ("BRR", "BZR", "BNCR"):
+            pre = "CON()\n" if br == "BNCR" else ("CMP(R0, R0)\n" if br == "BZR" else "")
+            cond_pre = {"BRR": "", "BZR": "CMP(R0, R0)\n", "BNCR": "COFF()\n"}[br]
+            if d > 0:
+                text = cond_pre + "{}(lab)\n".format(br) + "NOP()\n" * (d - 1) + "LABEL(lab)\nSET(R10, 77)\nHALT()\n"
+            else:
+                # backwards: enter over a forward jump, the label block ends with HALT
+                body = "NOP()\n" * (-d - 3)
+                text = "BR(start)\nLABEL(lab)\nSET(R10, 77)\nHALT()\n" + body + "LABEL(start)\n" + cond_pre + "{}(lab)\n".format(br)
+            out.append((text, d, br))
+    return out
+
+
+def check_reach():
+    import hera.vm as V
+    violations, evals = [], 0
+    for text, d, br in reach_programs():
+        for mode in ("", "debug", "assemble", "preprocess"):
+            st = progrun.make_settings(mode=mode)
+            res, oplist, prog, pm, exc = chk.real_check(text, st)
+            evals += 1
+            if prog is None:
+                continue
+            case = {"text": text, "mode": mode}
+            brs = [(i, o) for i, o in enumerate(prog.code) if o.name == br and o.original is not None and o.original.name == br]
+            labs = [int(v) for k, v in prog.symbol_table.items() if k == "lab"]
+            if brs and labs:
+                i, o = brs[-1]
+                disp = o.args[0]
+                sdisp = disp - 256 if disp >= 128 else disp
+                if i + sdisp != labs[0]:
+                    violations.append({"property": "C08", "stream": "reach", "sig": "reach:encoded", "case": case,
+                                       "what": "accepted {}(lab) at {} is encoded with displacement {} (= {} as a signed byte) but the label is at {}".format(
+                                           br, i, disp, sdisp, labs[0])})
+                    continue
+            if mode in ("", "debug"):
+                vm = V.VirtualMachine(progrun.make_settings(mode=mode, throttle=2000))
+                with proto.Capture() as cap:
+                    try:
+                        vm.run(prog)
+                    except BaseException as e:  # noqa
+                        cap.take()
+                        violations.append({"property": "C08", "stream": "reach", "sig": "reach:raise", "case": case,
+                                           "what": "accepted program raised " + type(e).__name__})
+                        continue
+                    cap.take()
+                if vm.registers[10] != 77:
+                    violations.append({"property": "C08", "stream": "reach", "sig": "reach:run", "case": case,
+                                       "what": "accepted {}(lab) over {} instructions never reaches its label (R10 = {}, pc = {})".format(
+                                           br, d, vm.registers[10], vm.pc)})
+    return {"evaluations": evals, "violations": violations, "disagreements": [], "accepted": 0}
